@@ -256,6 +256,27 @@ func runC06(w *World, r *Report, tier string) {
 		mk, ok := arg.(*ssa.Call)
 		return ok && w.callKey(mk) == "stanza.IQ.MakeError"
 	}
+	// requestTable: the edge asserts that the IQ's Type is a key of an effectively constant set (map[…]bool with true
+	// values): the keys, else nil
+	requestTable := func(c ssa.Value, truth bool) []string {
+		lk, ok := c.(*ssa.Lookup)
+		if !ok || lk.CommaOk || !truth {
+			return nil
+		}
+		fp := fieldPath(lk.Index)
+		if len(fp) == 0 || fp[len(fp)-1].Name() != "Type" {
+			return nil
+		}
+		t, _ := w.tableLookup(lk)
+		var ks []string
+		for _, e := range t {
+			if b, isB := boolConst(e.Val); !isB || !b {
+				return nil
+			}
+			ks = append(ks, e.Key)
+		}
+		return ks
+	}
 	niFn := w.FuncOpt("xmpp.iqNotImplemented")
 	isNIsite := func(in ssa.Instruction) bool {
 		if niFn != nil {
@@ -318,6 +339,9 @@ func runC06(w *World, r *Report, tier string) {
 					return ok && truth && w.typeStr(T) == "*stanza.IQ"
 				})
 				isReq := pathAsserts(path, func(c ssa.Value, truth bool) bool {
+					if ks := requestTable(c, truth); len(ks) > 0 {
+						return true
+					}
 					bo, ok := c.(*ssa.BinOp)
 					if !ok || bo.Op != token.EQL || !truth {
 						return false
@@ -359,6 +383,14 @@ func runC06(w *World, r *Report, tier string) {
 						return ok && truth && w.typeStr(T) == "*stanza.IQ"
 					})
 					isReq := pathAsserts(path, func(c ssa.Value, truth bool) bool {
+						if ks := requestTable(c, truth); len(ks) > 0 {
+							for _, k := range ks {
+								if reqS[k] {
+									seenReq[k] = true
+								}
+							}
+							return len(ks) == len(reqS)
+						}
 						bo, ok := c.(*ssa.BinOp)
 						if !ok || bo.Op != token.EQL || !truth {
 							return false
@@ -439,7 +471,7 @@ func runC06(w *World, r *Report, tier string) {
 			if !okIQ {
 				ok, detail = false, "what is sent is not iq.MakeError(…) of the request"
 			} else {
-				fields, _ := complitFields(origin(mk.Call.Args[1]))
+				fields, _ := w.literalFields(mk.Call.Args[1])
 				reason, _ := stringConst(fields["Reason"])
 				typ, _ := stringConst(fields["Type"])
 				if reason != "feature-not-implemented" || typ != "cancel" {
